@@ -35,6 +35,7 @@ type Contract struct {
 	Line       int
 	modset     *ModSet
 	Asserts    []*AssertAt
+	Keeps      []string          // C05: receiver fields that DecodeFromBytes deliberately leaves to the caller
 	ParamNames []string          // extern contracts: parameter names from the header
 	Devirt     map[string]string // parameter name -> concrete type name (interface parameter known to hold *T)
 }
@@ -76,7 +77,7 @@ type Lemma struct {
 	File      string
 }
 
-var clauseKW = regexp.MustCompile(`^(requires|ensures|modifies|loop|panics_iff|inline|trusted|use|induction|props|func|spec|pred|lemma|extern|devirt|at)\b`)
+var clauseKW = regexp.MustCompile(`^(requires|ensures|modifies|loop|panics_iff|inline|trusted|use|induction|props|func|spec|pred|lemma|extern|devirt|at|ifacecontract|keeps)\b`)
 
 // parseContracts reads every zz_verif_contracts*.go file of the loaded packages.
 func (e *Engine) parseContracts(pkgs []*packages.Package) error {
@@ -172,6 +173,21 @@ func (e *Engine) parseContractLines(pkg *types.Package, file string, lines []str
 			}
 			curLemma = nil
 			e.externCts[name] = cur
+		case "ifacecontract":
+			// ifacecontract Iface.Method(a T, b U) : contract of an interface method, used at invoke sites;
+			// every in-module implementer is checked against its frame (class "subtype").
+			i := strings.Index(rest, "(")
+			j := strings.LastIndex(rest, ")")
+			if i < 0 || j < i {
+				return fmt.Errorf("%s:%d: bad ifacecontract header", file, cl.line)
+			}
+			name := strings.TrimSpace(rest[:i])
+			cur = &Contract{Key: "iface:" + pkg.Name() + "." + name, Pkg: pkg, Header: rest, Loops: map[int]*LoopSpec{}, File: file, Line: cl.line, Trusted: true}
+			for _, sp := range parseParams(rest[i+1 : j]) {
+				cur.ParamNames = append(cur.ParamNames, sp.Name)
+			}
+			curLemma = nil
+			e.ifaceCts[pkg.Name()+"."+name] = cur
 		case "devirt":
 			if cur == nil {
 				return fmt.Errorf("%s:%d: devirt outside func", file, cl.line)
@@ -287,6 +303,10 @@ func (e *Engine) parseContractLines(pkg *types.Package, file string, lines []str
 				return err
 			}
 			cur.Asserts = append(cur.Asserts, &AssertAt{Callee: hd[0], Ord: n, Expr: x, Assume: strings.HasPrefix(body, "assume ")})
+		case "keeps":
+			if cur != nil {
+				cur.Keeps = append(cur.Keeps, strings.Fields(strings.ReplaceAll(rest, ",", " "))...)
+			}
 		case "inline":
 			if cur != nil {
 				cur.Inline = true
@@ -465,7 +485,10 @@ func (e *Engine) contractMods(f *ssa.Function, ct *Contract) *ModSet {
 		return ct.modset
 	}
 	m := newModSet()
-	derived := e.fnModsRaw(f)
+	var derived *ModSet
+	if f != nil {
+		derived = e.fnModsRaw(f)
+	}
 	for _, pat := range ct.Modifies {
 		switch pat {
 		case "nothing":
